@@ -148,7 +148,7 @@ pub fn run_case(c: &C06Case, n: u64) -> Verdict {
 
     // reference
     let root_paths: Vec<PathBuf> = roots.iter().map(|r| tree.join(&r.base)).collect();
-    let selected = reference_walk(&root_paths, &c.opts.walk_opts(), &|_, _| false, &|_| true);
+    let selected = reference_walk(&root_paths, &c.opts.walk_opts(), &|_, _, _| false, &|_| true);
     let counting = Counting {
         rf: c.opts.rf_model(),
         match_links: c.opts.match_links,
